@@ -102,6 +102,7 @@ int main(int argc, char **argv){
       { std::vector<double> c(d); for (int j=0;j<d;j++) c[j] = domHi(g, j); probes.push_back(c); for (int j=0;j<d;j++) c[j] = (j % 2) ? domLo(g, j) : domHi(g, j); probes.push_back(c); }   // corners
       { std::vector<double> c = pointAt(pts, d, n - 1); c[0] = domLo(g, 0) + 0.3719 * (domHi(g, 0) - domLo(g, 0)); probes.push_back(c); }    // shares coordinates with a node
       { std::vector<double> c(d); for (int j=0;j<d;j++) c[j] = domLo(g, j) + (0.2113 + 0.17 * j) * (domHi(g, j) - domLo(g, j)); probes.push_back(c); }   // interior
+      for (double f : {0.5, 1.0 / 6.0, 5.0 / 6.0}){ std::vector<double> c(d); for (int j=0;j<d;j++) c[j] = domLo(g, j) + (j == 0 ? f : 0.5) * (domHi(g, j) - domLo(g, j)); probes.push_back(c); }   // half a period from a node
       for (auto &c : probes){
         std::vector<double> w = grid.getInterpolationWeights(c);
         double s = 0, sw = 0; for (int i=0;i<n;i++){ s += w[i] * vals[(size_t) i * outs]; sw += w[i]; }
